@@ -17,6 +17,7 @@
 #include <unistd.h>
 #include <fcntl.h>
 #include <sys/wait.h>
+#include <string>
 #if CPPUTEST_HAVE_EXCEPTIONS
 #include <stdexcept>
 #endif
@@ -46,6 +47,7 @@ enum Kind {
     K_MEMCMP_EQUAL, K_BITS_EQUAL, K_CHECK_COMPARE, K_CHECK_THROWS,
     K_C_BOOL, K_C_INT, K_C_UINT, K_C_LONG, K_C_ULONG, K_C_LONGLONG, K_C_ULONGLONG, K_C_REAL, K_C_CHAR, K_C_UBYTE, K_C_SBYTE,
     K_C_STRING, K_C_POINTER, K_C_MEMCMP, K_C_BITS,
+    K_CHECK_EQUAL_STDSTRING, K_CHECK_EQUAL_POINTER,      // appended later: never renumber, corpus files keep their meaning
     K_COUNT
 };
 const char* const KIND_NAME[K_COUNT] = {
@@ -60,6 +62,7 @@ const char* const KIND_NAME[K_COUNT] = {
     "CHECK_EQUAL_C_BOOL", "CHECK_EQUAL_C_INT", "CHECK_EQUAL_C_UINT", "CHECK_EQUAL_C_LONG", "CHECK_EQUAL_C_ULONG",
     "CHECK_EQUAL_C_LONGLONG", "CHECK_EQUAL_C_ULONGLONG", "CHECK_EQUAL_C_REAL", "CHECK_EQUAL_C_CHAR", "CHECK_EQUAL_C_UBYTE",
     "CHECK_EQUAL_C_SBYTE", "CHECK_EQUAL_C_STRING", "CHECK_EQUAL_C_POINTER", "CHECK_EQUAL_C_MEMCMP", "CHECK_EQUAL_C_BITS",
+    "CHECK_EQUAL(std::string)", "CHECK_EQUAL(pointer)",
 };
 
 // ------------------------------------------------------------------ integer types
@@ -217,6 +220,9 @@ struct Case {
     double da = 0, db = 0, dt = 0;
     bool a_null = false, b_null = false, alias = false; std::string sa, sb; size_t n = 0;
     int sub = 0, op = 0, ia = 0, ib = 0, tm = 0;
+    bool crash_mode = false;  // run under UtestShell::setCrashOnFail() with a counting crash method
+    bool direct = false;      // assertCompare called directly (the macro never hands it a true comparison)
+    std::string *sta = nullptr, *stb = nullptr;
     bool wide_src = false;    // C interface: operands of a type other than the parameter type (converted by the call)
     bool c_trunc = false;     // the int parameter of CHECK_C / CHECK_EQUAL_C_BOOL loses the truth value (KEY_CBOOL)
     // materialised operands (built outside the test body: a failing check leaves the body by throw or longjmp)
@@ -332,8 +338,15 @@ double derive_double(Reader& r, double a, double tol) {
 }
 
 std::string gen_string(Reader& r) {
-    switch (r.below(5)) {
+    switch (r.below(6)) {
     default:
+    case 5: {   // long: a short unit repeated up to a boundary length (format buffers, 8-bit / 10-bit counters)
+        static const uint32_t lens[] = {100, 127, 128, 129, 255, 256, 257, 1000, 1023, 1024, 1025, 1500, 5000};
+        std::string u = r.str(3, "abZ"); if (u.empty()) u = "x";
+        uint32_t n = r.pick(lens); std::string o;
+        while (o.size() < n) o += u;
+        o.resize(n); return o;
+    }
     case 0: return r.str(6, "ab");
     case 1: return r.str(12, "abAB zZ");
     case 2: return r.bytes(40);
@@ -344,9 +357,11 @@ std::string gen_string(Reader& r) {
 // *null is set when the derived operand is NULL
 std::string derive_string(Reader& r, const std::string& a, bool a_is_null, bool* null) {
     *null = false;
-    uint32_t m = r.below(12);
+    uint32_t m = r.below(14);
     if (a_is_null) { if (m < 4) { *null = true; return ""; } if (m < 6) return ""; return gen_string(r); }
     switch (m) {
+    case 12: { std::string o = a; if (!o.empty()) { char& ch = o[o.size() - 1]; ch = (char)(ch == 'q' ? 'r' : 'q'); } return o; }   // last byte differs
+    case 13: { std::string o = a; if (!o.empty()) { char& ch = o[o.size() - 1 - r.below((uint32_t)(o.size() < 4 ? o.size() : 4))]; ch = flipcase(ch) != ch ? flipcase(ch) : (char)(ch == 'q' ? 'r' : 'q'); } return o; }   // case or byte differs near the end
     default:
     case 0: case 1: case 2: return a;
     case 3: { std::string o = a; for (auto& c : o) c = flipcase(c); return o; }
@@ -363,12 +378,14 @@ std::string derive_string(Reader& r, const std::string& a, bool a_is_null, bool*
 // needle for the contains checks, derived from the haystack
 std::string derive_needle(Reader& r, const std::string& hay, bool hay_null, bool* null) {
     *null = false;
-    uint32_t m = r.below(10);
+    uint32_t m = r.below(12);
     if (hay_null) { if (m < 4) { *null = true; return ""; } if (m < 6) return ""; return gen_string(r); }
     size_t p = hay.empty() ? 0 : r.below((uint32_t)hay.size());
     size_t l = r.below((uint32_t)(hay.size() - p) + 1);
     std::string sub = hay.substr(p, l);
     switch (m) {
+    case 10: { size_t k = hay.size() < 5 ? hay.size() : 1 + r.below(5); return hay.substr(hay.size() - k); }          // suffix
+    case 11: { size_t k = hay.size() < 5 ? hay.size() : 1 + r.below(5); std::string o = hay.substr(hay.size() - k); if (!o.empty()) o[o.size() - 1] = (char)(o[o.size() - 1] == 'q' ? 'r' : 'q'); return o; }   // suffix with its last byte changed
     default:
     case 0: case 1: return sub;
     case 2: { for (auto& c : sub) c = flipcase(c); return sub; }
@@ -502,7 +519,7 @@ void decode_contains(Reader& r, Case& c) {     // sa = expected (needle), sb = a
 }
 void decode_memory(Reader& r, Case& c) {       // sa = expected block, sb = actual block, n = size handed to the check
     c.text = r.flag();
-    static const uint32_t lens[] = {0, 1, 2, 3, 8, 16, 40};
+    static const uint32_t lens[] = {0, 1, 2, 3, 8, 16, 40, 127, 128, 129, 255, 256, 257, 1000, 4097};
     uint32_t len = r.below(2) == 0 ? r.pick(lens) : r.below(41);
     c.a_null = r.below(6) == 5;
     std::string base;
@@ -629,6 +646,8 @@ void decode_compare(Reader& r, Case& c) {
         c.expect = relop_int(c.op, c.va, c.vb);
         c.nontrivial = !c.expect || c.va != c.vb;
     }
+    // read last so that older corpus files keep their meaning: assertCompare itself, which the macro only ever calls with false
+    if (r.below(4) == 3) { c.direct = true; c.pass_checks = 1; }
 }
 void decode_doubles(Reader& r, Case& c) {
     c.text = r.flag();
@@ -642,12 +661,13 @@ void decode_doubles(Reader& r, Case& c) {
 }
 
 void decode(Reader& r, Case& c) {
-    c.kind = (int)r.below(K_COUNT);
+    // the first 46 kinds keep the byte values they always had (byte % 46 for bytes < 230); kinds appended later take 230..255
+    { const int K_BASE = 46; uint8_t b = r.u8(); c.kind = b < 5 * K_BASE ? b % K_BASE : K_BASE + (b - 5 * K_BASE) % (K_COUNT - K_BASE); }
     switch (c.kind) {
     case K_CHECK: case K_CHECK_TRUE: case K_CHECK_FALSE: case K_CHECK_C:
         decode_bool_family(r, c); break;
     case K_FAIL: case K_FAIL_TEST: case K_FAIL_C: case K_FAIL_TEXT_C:
-        c.sub = (int)r.below(4);        // which text
+        c.sub = (int)r.below(5);        // which text (4 = NULL)
         c.expect = 0; c.nontrivial = true; break;
     case K_CHECK_EQUAL_INT:
         c.text = r.flag(); decode_equal_same(r, c, (int)r.below(T_COUNT)); break;
@@ -741,8 +761,27 @@ void decode(Reader& r, Case& c) {
     case K_C_CHAR: decode_c_int(r, c, T_CHAR); break;
     case K_C_UBYTE: decode_c_int(r, c, T_UCHAR); break;
     case K_C_SBYTE: decode_c_int(r, c, T_SCHAR); break;
+    case K_CHECK_EQUAL_STDSTRING: {
+        c.text = r.flag(); c.sa = gen_string(r); bool nul; c.sb = derive_string(r, c.sa, false, &nul);
+        if (r.below(4) == 3) {      // embedded NUL: the operands differ (or not) behind it, the renderings stop at it
+            size_t pa = c.sa.empty() ? 0 : r.below((uint32_t)c.sa.size() + 1), pb = pa <= c.sb.size() ? pa : c.sb.size();
+            c.sa.insert(pa, 1, '\0'); c.sb.insert(pb, 1, '\0');
+        }
+        c.expect = c.sa == c.sb; c.nontrivial = !c.expect;
+        c.hazard = !c.expect && printable_model(std::string(c.sa.c_str())) == printable_model(std::string(c.sb.c_str()));
+        c.sta = new std::string(c.sa); c.stb = new std::string(c.sb);
+        break;
+    }
+    case K_CHECK_EQUAL_POINTER:
+        c.text = r.flag(); c.sub = (int)r.below(3);    // 0: two const void*, 1: (nullptr, pointer), 2: (pointer, nullptr)
+        c.ia = (int)r.below(5); c.ib = derive_index(r, c.ia, 5);
+        if (c.sub == 1) c.ia = 0;
+        if (c.sub == 2) c.ib = 0;
+        c.expect = c.ia == c.ib; c.nontrivial = !c.expect || c.sub != 0; break;
     default: break;
     }
+    // options of the run, read last so that older corpus files keep their meaning (exhausted input: none)
+    { uint32_t opt = r.below(8); c.crash_mode = opt == 5 || opt == 6; }
 }
 
 // ------------------------------------------------------------------ the test body: exactly one check
@@ -770,7 +809,7 @@ template <class T> void do_compare(int op, T x, T y, bool text) {
     }
 }
 
-const char* fail_text(int i) { switch (i) { default: case 0: return ""; case 1: return "a failure text"; case 2: return "100% %s %d"; case 3: return "line1\nline2"; } }
+const char* fail_text(int i) { switch (i) { default: case 0: return ""; case 1: return "a failure text"; case 2: return "100% %s %d"; case 3: return "line1\nline2"; case 4: return nullptr; } }
 
 #define MIXED(M) \
     with_mix(c.ta, c.va, [&](auto e) { with_mix(c.tb, c.vb, [&](auto a) { if (c.text) M##_TEXT(e, a, TXT); else M(e, a); }); })
@@ -823,6 +862,7 @@ void body(void* p) {
             }); }); });
         break;
     case K_CHECK_COMPARE:
+        if (c.direct) { UtestShell::getCurrent()->assertCompare(c.expect == 1, "CHECK_COMPARE", "first op second", c.text ? TXT : NULLPTR, __FILE__, __LINE__); break; }
         if (c.ta == T_COUNT) do_compare<double>(c.op, c.da, c.db, c.text);
         else with_type(c.ta, c.va, [&](auto x) { do_compare<decltype(x)>(c.op, x, from128<decltype(x)>(c.vb), c.text); });
         break;
@@ -875,16 +915,27 @@ void body(void* p) {
                 else CHECK_EQUAL_C_BITS(e, a, m);
             }); }); });
         break;
+    case K_CHECK_EQUAL_STDSTRING: { const std::string& e = *c.sta; const std::string& a = *c.stb; if (c.text) CHECK_EQUAL_TEXT(e, a, TXT); else CHECK_EQUAL(e, a); } break;
+    case K_CHECK_EQUAL_POINTER: {
+        const void* e = obj_ptr(c.ia); const void* a = obj_ptr(c.ib);
+        if (c.sub == 1) { if (c.text) CHECK_EQUAL_TEXT(nullptr, a, TXT); else CHECK_EQUAL(nullptr, a); }
+        else if (c.sub == 2) { if (c.text) CHECK_EQUAL_TEXT(e, nullptr, TXT); else CHECK_EQUAL(e, nullptr); }
+        else { if (c.text) CHECK_EQUAL_TEXT(e, a, TXT); else CHECK_EQUAL(e, a); }
+    } break;
     default: break;
     }
 }
 
 // ------------------------------------------------------------------ rendering
-std::string sp(bool null, const std::string& s) { return null ? std::string("NULL") : "\"" + verif::printable(s) + "\""; }
+std::string sp(bool null, const std::string& s) {
+    if (null) return "NULL";
+    if (s.size() > 80) return "\"" + verif::printable(s.substr(0, 30)) + "\"...(" + std::to_string(s.size()) + " bytes)...\"" + verif::printable(s.substr(s.size() - 30)) + "\"";
+    return "\"" + verif::printable(s) + "\"";
+}
 std::string hexblock(bool null, const std::string& s) {
     if (null) return "NULL";
     std::string o = "{";
-    for (unsigned char ch : s) o += sfmt("%02x", ch);
+    for (size_t i = 0; i < s.size(); i++) { if (i == 24 && s.size() > 48) { o += sfmt("..(%zu bytes)..", s.size()); i = s.size() - 24; } o += sfmt("%02x", (unsigned char)s[i]); }
     return o + "}";
 }
 std::string iv(int t, i128 v) { return sfmt("(%s)%s", TI[t].name, dec(v).c_str()); }
@@ -892,12 +943,13 @@ std::string describe(const Case& c) {
     std::string k = std::string(KIND_NAME[c.kind]) + (c.text ? "[_TEXT]" : "");
     switch (c.kind) {
     case K_CHECK: case K_CHECK_TRUE: case K_CHECK_FALSE: case K_CHECK_C: return k + "(" + iv(c.ta, c.va) + ")";
-    case K_FAIL: case K_FAIL_TEST: case K_FAIL_TEXT_C: return k + "(\"" + verif::printable(fail_text(c.sub)) + "\")";
+    case K_FAIL: case K_FAIL_TEST: case K_FAIL_TEXT_C: return k + (fail_text(c.sub) ? "(\"" + verif::printable(fail_text(c.sub)) + "\")" : std::string("(NULL)"));
     case K_FAIL_C: return k + "()";
     case K_CHECK_EQUAL_ZERO: return k + "(" + iv(c.tb, c.vb) + ")";
     case K_ENUMS_EQUAL: return k + sfmt("[%s]", c.sub == 0 ? "INT, enum:int" : c.sub == 1 ? "INT, enum:long long" : c.sub == 3 ? "TYPE unsigned char, enum:int" : c.sub == 4 ? "INT, enum:int vs enum:long long" : "TYPE unsigned char") + "(" + iv(c.ta, c.va) + ", " + iv(c.tb, c.vb) + ")";
     case K_CHECK_EQUAL_DOUBLE: return k + "(" + show_double(c.da) + ", " + show_double(c.db) + ")";
-    case K_CHECK_EQUAL_STRING: return k + "(" + sp(false, c.sa) + ", " + sp(false, c.sb) + ")";
+    case K_CHECK_EQUAL_STRING: case K_CHECK_EQUAL_STDSTRING: return k + "(" + sp(false, c.sa) + ", " + sp(false, c.sb) + ")";
+    case K_CHECK_EQUAL_POINTER: return k + sfmt("[%s](ptr#%d, ptr#%d)", c.sub == 0 ? "const void*" : c.sub == 1 ? "nullptr first" : "nullptr second", c.ia, c.ib);
     case K_POINTERS_EQUAL: case K_C_POINTER: return k + sfmt("(ptr#%d, ptr#%d)", c.ia, c.ib);
     case K_FUNCTIONPOINTERS_EQUAL: return k + sfmt("(fn#%d, fn#%d)", c.ia, c.ib);
     case K_DOUBLES_EQUAL: case K_C_REAL: return k + "(" + show_double(c.da) + ", " + show_double(c.db) + ", tol " + show_double(c.dt) + ")";
@@ -923,13 +975,36 @@ void release(Case& c) {
     if (c.pa) free(c.pa);
     c.pa = c.pb = nullptr;
     delete c.ssa; delete c.ssb; c.ssa = c.ssb = nullptr;
+    delete c.sta; delete c.stb; c.sta = c.stb = nullptr;
 }
 
 std::string g_sig;
 
+// like verif::run_in_fixture, plus: is the test marked as failed, and the crash-on-fail option with a counting crash method
+struct Run { size_t failures, checks; bool marked_failed; int crashes; };
+int g_crashes;
+void counting_crash() { g_crashes++; }
+Run run_case(Case& c) {
+    Run r;
+    g_crashes = 0;
+    if (c.crash_mode) { UtestShell::setCrashMethod(counting_crash); UtestShell::setCrashOnFail(); }
+    {
+        TestTestingFixture fixture;
+        verif::ExecLambda ex(body, &c);
+        fixture.setTestFunction(&ex);
+        fixture.runAllTests();
+        r.failures = fixture.getFailureCount();
+        r.checks = fixture.getCheckCount();
+        r.marked_failed = fixture.hasTestFailed();
+    }
+    if (c.crash_mode) { UtestShell::restoreDefaultTestTerminator(); UtestShell::resetCrashMethod(); }
+    r.crashes = g_crashes;
+    return r;
+}
+
 // run the case; 0 = property held
 int judge(Case& c, const char** out_sig, std::string* out_msg) {
-    verif::FixtureRun fr = verif::run_in_fixture(body, &c);
+    Run fr = run_case(c);
     bool judged_verdict = c.expect >= 0;
     if (c.opp_inf && verif::known(KEY_INF)) judged_verdict = false;   // the one known-wrong answer is accepted
     if (c.c_trunc && verif::known(KEY_CBOOL)) judged_verdict = false;
@@ -947,6 +1022,14 @@ int judge(Case& c, const char** out_sig, std::string* out_msg) {
         *out_msg = sfmt("%s: the predicate is %s but the check recorded %zu failure(s)", describe(c).c_str(), c.expect ? "true" : "false", fr.failures);
         return 1;
     }
+    if (fr.marked_failed != !passed) {     // recording a failure includes marking the running test as failed
+        g_sig = sfmt("C03:%s:test-marked-%s", KIND_NAME[c.kind], passed ? "failed-without-failure" : "passed-despite-failure");
+        *out_sig = g_sig.c_str();
+        *out_msg = sfmt("%s: %zu failure(s) recorded but hasFailed() is %s", describe(c).c_str(), fr.failures, fr.marked_failed ? "true" : "false");
+        return 1;
+    }
+    if (c.crash_mode && fr.crashes != (passed ? 0 : 1))     // not part of the statement: recorded, not judged
+        verif::observe(sfmt("crash-on-fail: %s called the crash method %d time(s) with %zu failure(s)", KIND_NAME[c.kind], fr.crashes, fr.failures));
     size_t want_checks = passed ? c.pass_checks : 1;
     if (fr.checks != want_checks) {
         g_sig = sfmt("C03:%s:check-count", KIND_NAME[c.kind]);
@@ -1004,6 +1087,9 @@ extern "C" int verif_case(const uint8_t* data, size_t size) {
         if (c.ia || c.ib) verif::cls("bits:operand-types-differ");
     }
     if (c.c_trunc) verif::cls("c-interface:truth-value-lost-in-int-parameter");
+    if (c.crash_mode) verif::cls(c.expect == 0 ? "option:crash-on-fail:failing-check" : "option:crash-on-fail:passing-check");
+    if (c.direct) verif::cls(c.expect == 1 ? "compare:direct-assertCompare:true" : "compare:direct-assertCompare:false");
+    if (c.sa.size() > 90 || c.sb.size() > 90) verif::cls("operand-longer-than-90-bytes");
     if (c.wide_src) verif::cls("c-interface:operand-wider-or-other-than-parameter-type");
 
     const char* sig = nullptr; std::string msg;
